@@ -561,29 +561,32 @@ def fireUser (st : St) (k : Int) (flags : Nat) (info : Info) : St :=
 
 def isChild (st : St) (pid : Int) : Bool := validPid pid && st.children.any (·.pid = pid)
 
+/-- The tail of `invoke_watch` (lines 301–332): a one-shot watch (timer, later, process) is searched in
+    its list, unlinked and freed; nothing happens when it is not found. -/
+def unlinkOneshot (st : St) (a : Nat) : St :=
+  if !st.live a then st.fail .invokeWatchType
+  else if (st.getW a).type = .none || (st.getW a).type = .io || (st.getW a).type = .signal then st
+  else if !st.allLive ((listOf st (st.getW a).type).takeWhile (· ≠ a)) then st.fail .invokeWatchWalk
+  else if !(listOf st (st.getW a).type).contains a then st
+  else
+    ((setListOf st (st.getW a).type ((listOf st (st.getW a).type).erase a)).setW a { st.getW a with type := .none }).free a
+
 /-- `invoke_watch` for a watch whose callback is the harness's (lines 297–333). -/
 def invokeWatch (st : St) (a : Nat) (flags : Nat) (info : Info) : St :=
   if !st.isOk then st
   else if !st.live a then st.fail .invokeWatchType
-  else
-    let w := st.getW a
-    let st := if w.slot ≥ 0 then fireUser st w.slot flags info else st
-    if !st.isOk then st
-    else if !st.live a then st.fail .invokeWatchType
-    else
-      let w := st.getW a
-      match w.type with
-      | .none | .io | .signal => st
-      | t =>
-        -- walk the one-shot list until the watch is found
-        let l := listOf st t
-        let before := l.takeWhile (· ≠ a)
-        if !st.allLive before then st.fail .invokeWatchWalk
-        else if !l.contains a then st
-        else
-          let st := setListOf st t (l.erase a)
-          let st := st.setW a { st.getW a with type := .none }
-          st.free a
+  else if !(if (st.getW a).slot ≥ 0 then fireUser st (st.getW a).slot flags info else st).isOk then
+    (if (st.getW a).slot ≥ 0 then fireUser st (st.getW a).slot flags info else st)
+  else unlinkOneshot (if (st.getW a).slot ≥ 0 then fireUser st (st.getW a).slot flags info else st) a
+
+/-- The harness's `waitpid` knows only its virtual children. -/
+def waitpidV (st : St) (pid : Int) : WaitRes := if validPid pid then waitpid st pid else ⟨st, 0, 0⟩
+
+/-- Body of the loop of `on_sigchld` for one process watch: `waitpid(pid, &wstatus, WNOHANG)`, and the
+    watch is invoked when the child has exited. -/
+def procStep (st : St) (a : Nat) : St :=
+  if (waitpidV st (st.getW a).pid).ret ≤ 0 then (waitpidV st (st.getW a).pid).st
+  else invokeWatch (waitpidV st (st.getW a).pid).st a EV_FIRE (.proc (st.getW a).pid (waitpidV st (st.getW a).pid).wstatus)
 
 /-- `on_sigchld` (lines 639–653): `next` is read before the callback runs. -/
 def onSigchld (fuel : Nat) (st : St) (this : Option Nat) : St :=
@@ -595,27 +598,24 @@ def onSigchld (fuel : Nat) (st : St) (this : Option Nat) : St :=
     | none => st
     | some a =>
       if !st.live a then st.fail .procLoopThis
-      else
-        let next := succOf a st.procs
-        let w := st.getW a
-        let r : WaitRes := if validPid w.pid then waitpid st w.pid else ⟨st, 0, 0⟩
-        if r.ret ≤ 0 then onSigchld fuel r.st next
-        else
-          let st := invokeWatch r.st a EV_FIRE (.proc w.pid r.wstatus)
-          onSigchld fuel st next
+      else onSigchld fuel (procStep st a) (succOf a st.procs)
 
 /-- `process_notify` (lines 655–662), the callback of the internal `later` of a pre-exited child. -/
 def processNotify (st : St) (later : Nat) : St :=
-  let p := (st.getW later).puser
-  if !st.live p then st.fail .invokeWatchType
-  else
-    let w := st.getW p
-    invokeWatch st p EV_FIRE (.proc w.pid w.wstatus)
+  if !st.live (st.getW later).puser then st.fail .invokeWatchType
+  else invokeWatch st (st.getW later).puser EV_FIRE
+         (.proc (st.getW (st.getW later).puser).pid (st.getW (st.getW later).puser).wstatus)
 
 /-! ### tickit.c: tickit_evloop_next_timer_msec, tickit_evloop_invoke_timers -/
 
 /-- C `/` on `long`: truncation toward zero. -/
 def tdiv (a b : Int) : Int := Int.tdiv a b
+
+/-- `timersub(&t->timers->timer.at, &now, &delay); msec = delay.tv_sec*1000 + delay.tv_usec/1000; if(msec < 0) msec = 0;` -/
+def msecUntil (st : St) (a : Nat) : Int :=
+  let delay := (st.getW a).due.sub (TV.ofUs st.clockUs)
+  let msec := delay.sec * 1000 + tdiv delay.usec 1000
+  if msec < 0 then 0 else msec
 
 /-- `tickit_evloop_next_timer_msec`. -/
 def nextTimerMsec (st : St) : St × Int :=
@@ -623,12 +623,8 @@ def nextTimerMsec (st : St) : St × Int :=
   else match st.timers with
     | [] => (st, -1)
     | a :: _ =>
-      let st := st.emit .g
-      if !st.live a then (st.fail .nextTimerHead, 0)
-      else
-        let delay := (st.getW a).due.sub (TV.ofUs st.clockUs)
-        let msec := delay.sec * 1000 + tdiv delay.usec 1000
-        (st, if msec < 0 then 0 else msec)
+      if !st.live a then ((st.emit .g).fail .nextTimerHead, 0)
+      else (st.emit .g, msecUntil st a)
 
 /-- One timer callback performed by `tickit_evloop_invoke_timers`: which watch, and its deadline.
     The timer loops return the list of these next to the state; nothing in the model or the driver
@@ -685,36 +681,46 @@ def timerLoopPopT (fuel : Nat) (st : St) (now : TV) : St × List Fired :=
 def timerLoopPop (fuel : Nat) (st : St) (now : TV) : St := (timerLoopPopT fuel st now).1
 
 /-- The `while(later)` loop over the detached queue (lines 823–829). -/
+def laterCb (st : St) (a : Nat) : St :=
+  if (st.getW a).slot ≥ 0 then fireUser st (st.getW a).slot (EV_FIRE ||| EV_UNBIND) .none
+  else if (st.getW a).slot = -4 then processNotify st a
+  else st
+
 def laterLoop (st : St) : List Nat → St
   | [] => st
   | a :: rest =>
     if !st.isOk then st
     else if !st.live a then st.fail .laterLoopThis
-    else
-      let w := st.getW a
-      let st := if w.slot ≥ 0 then fireUser st w.slot (EV_FIRE ||| EV_UNBIND) .none
-                else if w.slot = -4 then processNotify st a else st
-      if !st.isOk then st
-      else if !st.live a then st.fail .laterLoopThis
-      else laterLoop (st.free a) rest
+    else if !(laterCb st a).isOk then laterCb st a
+    else if !(laterCb st a).live a then (laterCb st a).fail .laterLoopThis
+    else laterLoop ((laterCb st a).free a) rest
 
 /-- `tickit_evloop_invoke_timers`. -/
+def timerPhaseShipped (fuel : Nat) (st : St) (now : TV) : St :=
+  if (timerLoop fuel st now st.timers.head?).1.isOk then
+    { (timerLoop fuel st now st.timers.head?).1 with
+      timers := suffixFrom (timerLoop fuel st now st.timers.head?).2 (timerLoop fuel st now st.timers.head?).1.timers }
+  else (timerLoop fuel st now st.timers.head?).1
+
+/-- The `if(t->timers) { … }` block of `tickit_evloop_invoke_timers`. -/
+def timerPhase (fuel : Nat) (st : St) : St :=
+  if st.timers.isEmpty then st
+  else if st.cfg.timersPop then timerLoopPop fuel (st.emit .g) (TV.ofUs st.clockUs)
+  else timerPhaseShipped fuel (st.emit .g) (TV.ofUs st.clockUs)
+
 def invokeTimers (fuel : Nat) (st : St) : St :=
-  if !st.isOk then st else
-  let later := st.laters
-  let st := { st with laters := [] }
-  let st :=
-    if st.timers.isEmpty then st
-    else
-      let st := st.emit .g
-      let now := TV.ofUs st.clockUs
-      if st.cfg.timersPop then timerLoopPop fuel st now
-      else
-        let r := timerLoop fuel st now st.timers.head?
-        if r.1.isOk then { r.1 with timers := suffixFrom r.2 r.1.timers } else r.1
-  laterLoop st later
+  if !st.isOk then st
+  else laterLoop (timerPhase fuel { st with laters := [] }) st.laters
 
 /-! ### tickit.c: tickit_evloop_invoke_sigwatches;  evloop-default.c: dispatch_signals -/
+
+/-- `if(this->signal.signum == signum) (*this->fn)(…)` for the three callbacks a signal watch can have. -/
+def sigCb (fuel : Nat) (st : St) (a : Nat) (signum : Int) : St :=
+  if (st.getW a).signum = signum then
+    if (st.getW a).slot ≥ 0 then fireUser st (st.getW a).slot EV_FIRE .none
+    else if (st.getW a).slot = -3 then onSigchld fuel st st.procs.head?
+    else st     -- on_sigwinch: the headless terminal has no output descriptor
+  else st
 
 /-- `tickit_evloop_invoke_sigwatches`: `this = this->next` is read after the callback. -/
 def sigwatchLoop (fuel : Nat) (st : St) (signum : Int) (this : Option Nat) : St :=
@@ -726,35 +732,23 @@ def sigwatchLoop (fuel : Nat) (st : St) (signum : Int) (this : Option Nat) : St 
     | none => st
     | some a =>
       if !st.live a then st.fail .sigLoopThis
-      else
-        let w := st.getW a
-        let st :=
-          if w.signum = signum then
-            if w.slot ≥ 0 then fireUser st w.slot EV_FIRE .none
-            else if w.slot = -3 then onSigchld fuel st st.procs.head?
-            else st     -- on_sigwinch: the headless terminal has no output descriptor
-          else st
-        if !st.isOk then st
-        else if !st.live a then st.fail .sigLoopThis
-        else sigwatchLoop fuel st signum (succOf a st.signals)
+      else if !(sigCb fuel st a signum).isOk then sigCb fuel st a signum
+      else if !(sigCb fuel st a signum).live a then (sigCb fuel st a signum).fail .sigLoopThis
+      else sigwatchLoop fuel (sigCb fuel st a signum) signum (succOf a (sigCb fuel st a signum).signals)
 
 /-- The `for(signum = 1; signum < NSIG; signum++)` loop of `dispatch_signals`. -/
 def dispatchLoop (fuel : Nat) (st : St) (pending : List Int) : List Int → St
   | [] => st
   | s :: rest =>
-    let st :=
-      if st.isOk && pending.contains s && st.watched.contains s then
-        sigwatchLoop fuel st s st.signals.head?
-      else st
-    dispatchLoop fuel st pending rest
+    dispatchLoop fuel
+      (if st.isOk && pending.contains s && st.watched.contains s then sigwatchLoop fuel st s st.signals.head? else st)
+      pending rest
 
 def signalRange : List Int := (List.range NSIG).tail.map Int.ofNat
 
 /-- `dispatch_signals`. -/
 def dispatchSignals (fuel : Nat) (st : St) : St :=
-  let pending := st.pendingSig
-  let st := { st with pendingSig := [] }
-  dispatchLoop fuel st pending signalRange
+  dispatchLoop fuel { st with pendingSig := [] } st.pendingSig signalRange
 
 /-! ### evloop-default.c: evloop_run, one iteration -/
 
@@ -772,26 +766,49 @@ def pollRevents (st : St) (s : PollSlot) : Nat :=
 def deliverPending (st : St) : St :=
   { st with pendingSig := st.kpending.foldl (fun acc s => setInsert s acc) st.pendingSig, kpending := [] }
 
+/-- The kernel writes `revents` of every entry. -/
+def pollScan (st : St) : St :=
+  { st with pfd := st.pfd.map fun s => { s with revents := some (pollRevents st s) } }
+
+/-- Number of entries with something to report. -/
+def pollCount (st : St) : Nat := ((pollScan st).pfd.filter fun s => s.revents ≠ some 0).length
+
+def pollSlots (st : St) : List (Int × Nat) := st.pfd.map fun s => (s.fd, s.events)
+
+/-- Signals the harness raises from inside its `ppoll` (they are still blocked at that point). -/
+def pollRaise (st : St) : St := st.inpoll.foldl raiseSig { st with inpoll := [] }
+
+/-- A timeout elapses: the virtual clock advances. -/
+def pollTimeout (st : St) (timeoutMs : Option Int) : St :=
+  match timeoutMs with
+  | some ms => { st with clockUs := st.clockUs + ms * 1000 }
+  | none => st
+
 /-- The harness's `ppoll` (hypothesis `OsPpoll`): ready descriptors are reported before signals are
     looked at; otherwise pending signals are delivered and the call fails with `EINTR`; otherwise it
     times out (advancing the virtual clock).  Returns `none` for -1/EINTR. -/
 def ppoll (st : St) (timeoutMs : Option Int) : St × Option Nat :=
-  let slots := st.pfd.map fun s => (s.fd, s.events)
-  let pfd := st.pfd.map fun s => { s with revents := some (pollRevents st s) }
-  let count := (pfd.filter fun s => s.revents ≠ some 0).length
-  let st := { st with pfd := pfd }
-  let inp := st.inpoll
-  let st := inp.foldl raiseSig { st with inpoll := [] }
-  if !st.isOk then (st, some 0)
-  else if count > 0 then (st.emit (.poll timeoutMs slots (some count)), some count)
-  else if !st.kpending.isEmpty then
-    let st := deliverPending st
-    ({ st with errno := EINTR }.emit (.poll timeoutMs slots none), none)
+  if !(pollRaise (pollScan st)).isOk then (pollRaise (pollScan st), some 0)
+  else if pollCount st > 0 then
+    ((pollRaise (pollScan st)).emit (.poll timeoutMs (pollSlots st) (some (pollCount st))), some (pollCount st))
+  else if !(pollRaise (pollScan st)).kpending.isEmpty then
+    ({ deliverPending (pollRaise (pollScan st)) with errno := EINTR }.emit (.poll timeoutMs (pollSlots st) none), none)
   else
-    let st := match timeoutMs with
-      | some ms => { st with clockUs := st.clockUs + ms * 1000 }
-      | none => st
-    (st.emit (.poll timeoutMs slots (some 0)), some 0)
+    ((pollTimeout (pollRaise (pollScan st)) timeoutMs).emit (.poll timeoutMs (pollSlots st) (some 0)), some 0)
+
+/-- `revents` as the loop reads it: an entry that was never written is uninitialised memory. -/
+def slotRevents (s : PollSlot) : Nat :=
+  match s.revents with
+  | some r => r
+  | none => fillRevents
+
+/-- `tickit_evloop_invoke_iowatch(evdata->pollwatches[idx], TICKIT_EV_FIRE, cond)`. -/
+def ioCb (st : St) (s : PollSlot) : St :=
+  match s.watch with
+  | some a =>
+    if !st.live a then st.fail .invokeWatchType
+    else invokeWatch st a EV_FIRE (.io (st.getW a).fd (condOfRevents (slotRevents s)))
+  | none => st
 
 /-- The descriptor loop of `evloop_run` (lines 162–184); `nfds` is re-read on every iteration. -/
 def ioLoop (fuel : Nat) (st : St) (idx : Nat) : St :=
@@ -800,50 +817,50 @@ def ioLoop (fuel : Nat) (st : St) (idx : Nat) : St :=
   | fuel + 1 =>
     if !st.isOk then st
     else if idx ≥ st.pfd.length then st
-    else
-      let s := st.pfd.getD idx default
-      if s.fd = -1 then ioLoop fuel st (idx + 1)
-      else
-        let revents := match s.revents with
-          | some r => r
-          | none => fillRevents
-        if revents = 0 then ioLoop fuel st (idx + 1)
-        else
-          let cond := condOfRevents revents
-          let st := match s.watch with
-            | some a =>
-              if !st.live a then st.fail .invokeWatchType
-              else invokeWatch st a EV_FIRE (.io (st.getW a).fd cond)
-            | none => st
-          ioLoop fuel st (idx + 1)
+    else if (st.pfd.getD idx default).fd = -1 then ioLoop fuel st (idx + 1)
+    else if slotRevents (st.pfd.getD idx default) = 0 then ioLoop fuel st (idx + 1)
+    else ioLoop fuel (ioCb st (st.pfd.getD idx default)) (idx + 1)
+
+/-- `errno` as `evloop_run` looks at it when `ppoll` returned -1: `afterPoll` is the state right after
+    the wait, `st` the state after `tickit_evloop_invoke_timers`. -/
+def errnoSeen (afterPoll st : St) : Int := if st.cfg.errnoSaved then afterPoll.errno else st.errno
+
+/-- `evloop_run` after the wait (lines 159–188): timers and deferred callbacks, then descriptors or signals. -/
+def tickAfterPoll (fuel : Nat) (st : St) (ret : Option Nat) : St :=
+  if !(invokeTimers fuel st).isOk then invokeTimers fuel st
+  else match ret with
+    | some n => if n > 0 then ioLoop fuel (invokeTimers fuel st) 0 else invokeTimers fuel st
+    | none =>
+      if errnoSeen st (invokeTimers fuel st) = EINTR then dispatchSignals fuel (invokeTimers fuel st)
+      else invokeTimers fuel st
+
+/-- The timeout `evloop_run` hands to `ppoll` (lines 142–154). -/
+def tickTimeout (nohang : Bool) (msec : Int) : Option Int :=
+  if (if nohang then 0 else msec) > -1 then some (if nohang then 0 else msec) else none
 
 /-- One iteration of `evloop_run` under `tickit_tick`. -/
 def tick (fuel : Nat) (st : St) (nohang : Bool) : St :=
-  if !st.isOk then st else
-  let r := nextTimerMsec st
-  if !r.1.isOk then r.1 else
-  let msec := if nohang then 0 else r.2
-  let p := ppoll r.1 (if msec > -1 then some msec else none)
-  if !p.1.isOk then p.1 else
-  let errnoAfterPoll := p.1.errno
-  let st := invokeTimers fuel p.1
-  if !st.isOk then st else
-  match p.2 with
-  | some n => if n > 0 then ioLoop fuel st 0 else st
-  | none =>
-    let e := if st.cfg.errnoSaved then errnoAfterPoll else st.errno
-    if e = EINTR then dispatchSignals fuel st else st
+  if !st.isOk then st
+  else if !(nextTimerMsec st).1.isOk then (nextTimerMsec st).1
+  else if !(ppoll (nextTimerMsec st).1 (tickTimeout nohang (nextTimerMsec st).2)).1.isOk then
+    (ppoll (nextTimerMsec st).1 (tickTimeout nohang (nextTimerMsec st).2)).1
+  else tickAfterPoll fuel (ppoll (nextTimerMsec st).1 (tickTimeout nohang (nextTimerMsec st).2)).1
+         (ppoll (nextTimerMsec st).1 (tickTimeout nohang (nextTimerMsec st).2)).2
 
 /-! ### tickit.c: construction and destruction -/
 
 /-- `tickit_build` on a headless terminal with the default event loop: the terminal's input watch
     (descriptor -1!) and the SIGWINCH watch. -/
+def build0 (cfg : Config) : St :=
+  { cfg := cfg, alive := true,
+    pendingSig := if cfg.pendingInit then [] else (signalRange.filter fillSigMember) }
+
 def build (cfg : Config) : St :=
-  let st : St := { cfg := cfg, alive := true,
-                   pendingSig := if cfg.pendingInit then [] else (signalRange.filter fillSigMember) }
-  let st := (watchIo st (-1) IO_IN 0 (-1)).1
-  let st := (watchSignal st SIGWINCH 0 (-2)).1
-  { st with log := [] }
+  { (watchSignal (watchIo (build0 cfg) (-1) IO_IN 0 (-1)).1 SIGWINCH 0 (-2)).1 with log := [] }
+
+/-- `if(this->flags & (TICKIT_BIND_UNBIND|TICKIT_BIND_DESTROY)) (*this->fn)(this->t, TICKIT_EV_UNBIND|TICKIT_EV_DESTROY, NULL, this->user);` -/
+def destroyNotify (st : St) (a : Nat) : St :=
+  if (st.getW a).flags &&& (BIND_UNBIND ||| BIND_DESTROY) ≠ 0 then notify st a (EV_UNBIND ||| EV_DESTROY) else st
 
 /-- `destroy_watchlist`. -/
 def destroyList (st : St) (t : WType) : List Nat → St
@@ -851,23 +868,24 @@ def destroyList (st : St) (t : WType) : List Nat → St
   | a :: rest =>
     if !st.isOk then st
     else if !st.live a then st.fail .destroyWalk
-    else
-      let w := st.getW a
-      let st := if w.flags &&& (BIND_UNBIND ||| BIND_DESTROY) ≠ 0 then notify st a (EV_UNBIND ||| EV_DESTROY) else st
-      destroyList ((cancelHook st t w.evi).free a) t rest
+    else destroyList ((cancelHook (destroyNotify st a) t (st.getW a).evi).free a) t rest
+
+/-- `if(t->LIST) destroy_watchlist(t, t->LIST, hook);` -/
+def destroyOf (t : WType) (st : St) : St := destroyList st t (listOf st t)
+
+/-- `if(t->sigchldwatch) tickit_watch_cancel(t, t->sigchldwatch);` -/
+def cancelSigchld (st : St) : St :=
+  match st.sigchldwatch with
+  | some a => watchCancel st a
+  | none => st
+
+def destroyFinish (st : St) : St :=
+  if st.isOk then { st with alive := false, iow := [], timers := [], laters := [], signals := [], procs := [] } else st
 
 /-- `tickit_destroy`. -/
 def destroy (st : St) : St :=
-  if !st.isOk then st else
-  let st := match st.sigchldwatch with
-    | some a => watchCancel st a
-    | none => st
-  let st := destroyList st .io st.iow
-  let st := destroyList st .timer st.timers
-  let st := destroyList st .later st.laters
-  let st := destroyList st .signal st.signals
-  let st := destroyList st .process st.procs
-  if st.isOk then { st with alive := false, iow := [], timers := [], laters := [], signals := [], procs := [] } else st
+  if !st.isOk then st
+  else destroyFinish (destroyOf .process (destroyOf .signal (destroyOf .later (destroyOf .timer (destroyOf .io (cancelSigchld st))))))
 
 /-- Blocks LeakSanitizer would report: allocated, not freed, and not reachable from the instance
     (its five lists, and the process watch an internal `later` carries as its `user`). -/
@@ -899,9 +917,7 @@ deriving DecidableEq, Repr, Inhabited
     many of either. -/
 def defaultFuel : Nat := 4096
 
-/-- One operation of the harness (`log` is reset first). -/
-def applyOp (st : St) (op : Op) : St :=
-  let st := { st with log := [] }
+def applyOp' (st : St) (op : Op) : St :=
   if !st.isOk then st else
   match op with
   | .new _ => st
@@ -919,5 +935,11 @@ def applyOp (st : St) (op : Op) : St :=
     | .tickhang => tick defaultFuel st false
     | .destroy => destroy st
     | _ => st
+
+/-- One operation of the harness (`log` is reset first). -/
+def applyOp (st : St) (op : Op) : St := applyOp' { st with log := [] } op
+
+/-- A whole history. -/
+def runOps (cfg : Config) (ops : List Op) : St := ops.foldl applyOp (build cfg)
 
 end Tickit.EvLoop
